@@ -1172,7 +1172,7 @@ func (w *World) doRefused() {
 			return
 		}
 	}
-	if what := r.Choose("refuse-foreign", 3); what == 0 && w.Codec != "pb" && (w.P.Check["C05"] || w.P.Check["C06"] || w.P.Check["C18"]) && len(n.Set) > 0 {
+	if what := r.Choose("refuse-foreign", 3); what == 0 && w.Codec != "pb" && (w.P.Check["C05"] || w.P.Check["C06"] || w.P.Check["C08"] || w.P.Check["C18"]) && len(n.Set) > 0 {
 		w.foreignMerge(n)
 		return
 	}
